@@ -29,7 +29,11 @@ METHODS_1D = ["ALIAS", "TABLE", "BINARYSEARCHTREE", "HUFFMANNTREE", "INVERSION",
 def strat_1d(draw, tier):
     spec = draw(chain_model_spec())
     g = draw(grid_spec(max_refine=2 if tier == "quick" else 3))
-    return {"model": spec, "grid": g, "method": draw(st.sampled_from(METHODS_1D))}
+    # "earlier": chains built before, with the same model object, on narrower fixed-size grids (a chain works on its own
+    # truncated copy of the model: what an earlier chain did to it must not show in a later one)
+    earlier = draw(st.lists(st.tuples(st.integers(4, 10), _f(0.1, 0.6)), min_size=0, max_size=2)) \
+        if draw(st.booleans()) else []
+    return {"model": spec, "grid": g, "method": draw(st.sampled_from(METHODS_1D)), "earlier": [list(e) for e in earlier]}
 
 
 def _method(name):
@@ -53,6 +57,11 @@ def body_1d(case):
         return [Violation("REJECTED", "axis larger than the per-case bound")]
     br = branch_of(spec)
     tag = f"C01/1d/{gspec['type']}"
+    from rpylib.grid.spatial import CTMCUniformGrid
+
+    for n_pts, h_rel in case.get("earlier", []):
+        g0 = CTMCUniformGrid.create_from_fixed_nb_of_points(h=spec_h(spec, {"h_rel": h_rel}), nb_of_points=n_pts, dimension=1)
+        MarkovChainProcess(model=model, method=_method(case["method"]), grid=g0)
     proc = MarkovChainProcess(model=model, method=_method(case["method"]), grid=grid)
     lam = float(proc.intensity_of_jumps)
     nu_t = proc.model.levy_triplet.nu
@@ -139,6 +148,17 @@ def body_1d(case):
         if abs(m - q[k]) > 1e-12 * max(q[k], lam * 1e-6) + 1e-300:
             out.append(Violation(f"{tag}/model-mass-differs", f"state {k}: mass {m!r} vs q {q[k]!r}"))
             break
+    # the caller's model object is left as it was (the chain truncates and re-represents a copy)
+    fresh = build_model(spec)
+    t0, t1 = model.levy_triplet, fresh.levy_triplet
+    h2 = grid.h / 2
+    same = t0.representation == t1.representation and float(t0.a) == float(t1.a) and \
+        float(t0.nu.integrate(-INF, -h2)) == float(t1.nu.integrate(-INF, -h2)) and \
+        float(t0.nu.integrate(h2, INF)) == float(t1.nu.integrate(h2, INF))
+    if not same:
+        out.append(Violation(f"{tag}/building-a-chain-changed-the-callers-model",
+                             f"representation {t0.representation} / {t1.representation}, a {t0.a!r} / {t1.a!r}, tail masses "
+                             f"{t0.nu.integrate(-INF, -h2)!r} / {t1.nu.integrate(-INF, -h2)!r}; model={spec} grid={gspec}"))
     return out
 
 
@@ -146,6 +166,8 @@ def classify_1d(case):
     spec, g = case["model"], case["grid"]
     br = branch_of(spec)
     labels = [br, g["type"], f"refine={g['refine']}", case["method"]]
+    if case.get("earlier"):
+        labels.append("model-object-used-by-earlier-chains")
     nt = g["refine"] >= 1 or g["type"] != "uniform" or br in ("cgmy/y<0", "cgmy/y=0", "cgmy/y=1")
     return labels, nt
 
